@@ -624,21 +624,25 @@ def a_c09_ctor_total(prog):
 
 
 def a_parse_many_shape(prog):
-    callers = prog.callers_of(r"^parser::parse_many$")
+    from . import c09
+    pm = c09.ctor_fns(prog).get("postfix")
+    if pm is None:
+        return False, "the postfix tree constructor (fn(Span, Vec<Value>) -> Value comparing the operator text) was not found"
+    callers = [c for c in prog.fns.values() for c in c.calls if c.local_key() == pm.key]
     callers = [c for c in callers if c.fn.crate == "milu"]
-    if len(callers) != 1 or "op_8" not in callers[0].fn.path:
-        return False, "parse_many is called from %s (expected only the op_8 fold)" % [c.fn.path for c in callers]
+    if len(callers) != 1:
+        return False, "%s is called from %s (expected only the postfix fold)" % (pm.path, [c.fn.path for c in callers])
     c = callers[0]
     ins = [x for x in c.fn.calls if re.search(r"Vec::<T, A>::insert$", x.path or "")]
     if not ins or not all(c.fn.dominates(x.bb, c.bb) for x in ins):
-        return False, "op_8 no longer inserts the operand in front of the postfix arguments before parse_many"
-    # Call::new callers: make_call functions and parse_many
+        return False, "the postfix fold no longer inserts the operand in front of the postfix arguments before calling %s" % pm.path
+    # Call::new callers: make_call functions and the postfix constructor
     for x in prog.callers_of(r"^script::Call::new$"):
         if x.fn.crate != "milu" and not x.fn.file.endswith("script_ext.rs"):
             continue
-        if not re.search(r"::make_call$|parser::parse_many$", x.fn.path):
+        if not (re.search(r"::make_call$", x.fn.path) or x.fn.key == pm.key):
             return False, "Call::new called from %s" % x.fn.path
-    return True, "parse_many is fed by op_8 only (operand inserted at index 0); Call::new by make_call/parse_many only"
+    return True, "%s is fed by the postfix fold only (operand inserted at index 0); Call::new by make_call/%s only" % (pm.path, pm.path)
 
 
 def a_call_func_checks_callable(prog):
